@@ -23,10 +23,15 @@ type GroupedAVP struct {
 
 // DecodeGrouped decodes a Grouped AVP from a datatype.Grouped (byte array).
 func DecodeGrouped(data datatype.Grouped, application uint32, dictionary *dict.Parser) (*GroupedAVP, error) {
+	return decodeGrouped(data, application, dictionary, 1)
+}
+
+func decodeGrouped(data datatype.Grouped, application uint32, dictionary *dict.Parser, depth int) (*GroupedAVP, error) {
 	g := &GroupedAVP{}
 	b := []byte(data)
 	for n := 0; n < len(b); {
-		avp, err := DecodeAVP(b[n:], application, dictionary)
+		avp := &AVP{}
+		err := avp.decodeFromBytes(b[n:], application, dictionary, depth)
 		if err != nil {
 			return nil, err
 		}
